@@ -87,6 +87,9 @@ func (c *Ctx) c06Ctl(body []ast.Stmt) []string {
 				out = append(out, "defer:"+txt(v.Call))
 			}
 		case *ast.ExprStmt:
+			if c06IsTraceHook(v) {
+				return // verifTrace(...): event-trace hook, an empty function without the build tag `verif`
+			}
 			if call, ok := v.X.(*ast.CallExpr); ok && callWithLit(call, "call") {
 				return
 			}
@@ -110,6 +113,17 @@ func (c *Ctx) c06Ctl(body []ast.Stmt) []string {
 	}
 	stmts(body)
 	return out
+}
+
+// c06IsTraceHook: the statement is a call of the add-only instrumentation hook verifTrace (a no-op unless the
+// harness is built with the tag `verif`); it is not part of the control skeleton the C06 theorems are about.
+func c06IsTraceHook(s *ast.ExprStmt) bool {
+	if call, ok := s.X.(*ast.CallExpr); ok {
+		if id, ok := call.Fun.(*ast.Ident); ok && id.Name == "verifTrace" {
+			return true
+		}
+	}
+	return false
 }
 
 // c06Tree renders a statement list as a term of `Rare.C06.Ctl` (lean/Rare/Model/C06Ctl.lean).
@@ -174,6 +188,9 @@ func (c *Ctx) c06Tree(body []ast.Stmt) string {
 			}
 			return fmt.Sprintf("(.deferS (.simple %s .nil) %s)", leanStr("do:"+txt(v.Call)), next)
 		case *ast.ExprStmt:
+			if c06IsTraceHook(v) {
+				return next
+			}
 			if call, ok := v.X.(*ast.CallExpr); ok {
 				if fl, head := litOf(call); fl != nil {
 					return fmt.Sprintf("(.callLit %s %s %s)", leanStr(head), block(fl.Body.List), next)
